@@ -34,6 +34,27 @@ class PreconditionsParser:
         self.tokenizer = tokenizer
         self.logger = logging.getLogger(__name__)
 
+    @staticmethod
+    def _validate_literal(
+        literal_ast: List[str], domain_predicates: Dict[str, Predicate]
+    ) -> None:
+        """Validates that a literal refers to a declared predicate with the declared number of arguments.
+
+        :param literal_ast: the AST of the (positive) literal.
+        :param domain_predicates: the predicates that are defined in the domain.
+        """
+        if (
+            not isinstance(literal_ast, list)
+            or len(literal_ast) == 0
+            or literal_ast[0] not in domain_predicates
+        ):
+            raise SyntaxError(f"Unknown precondition node: {literal_ast}")
+
+        if len(literal_ast[1:]) != len(domain_predicates[literal_ast[0]].signature):
+            raise SyntaxError(
+                f"The literal {literal_ast} does not match the signature of its predicate!"
+            )
+
     def parse(
         self,
         precondition_root: Union[Precondition, UniversalPrecondition],
@@ -62,6 +83,7 @@ class PreconditionsParser:
                 continue
 
             if precondition_node[0] in domain_predicates:
+                self._validate_literal(precondition_node, domain_predicates)
                 precondition_root.add_condition(
                     parse_untyped_predicate(
                         precondition_node,
@@ -84,6 +106,7 @@ class PreconditionsParser:
                     continue
 
                 # no support on not for compound logical expressions
+                self._validate_literal(inner_node, domain_predicates)
                 precondition_root.add_condition(
                     parse_untyped_predicate(
                         inner_node,
@@ -159,7 +182,6 @@ class PreconditionsParser:
                 continue
 
             else:
-                self.logger.error(f"Unknown precondition node: {precondition_node}")
-                return None
+                raise SyntaxError(f"Unknown precondition node: {precondition_node}")
 
         return precondition_root
